@@ -54,6 +54,7 @@ Proof.
   destruct ((sp_r kp <=? 0)%Z || (sp_p kp <=? 0)%Z) eqn:E2; [intros; discriminate|].
   unfold call_scrypt. pose proof (scrypt_guards_in_dom kp E1 E2) as Hd. rewrite Hd. simpl.
   destruct (scrypt_params_ok (sp_n kp) (sp_r kp) (sp_p kp)) eqn:E3; simpl; [|intros; discriminate].
+  destruct (scrypt_alloc_ok (sp_n kp) (sp_r kp)); simpl; [|intros; discriminate].
   apply Z.eqb_eq in E1. unfold derivedKeyLen in E1. rewrite E1 in *.
   intros H. apply decryptCommon_ok in H as (_ & Hm & Hi & Hk).
   repeat split; auto.
@@ -143,30 +144,141 @@ Qed.
 (* [decode_content P t = None]: the structure is malformed (not an object, a member of the wrong JSON
    kind, undecodable hex, a non-integer number, an unparseable id) or the kdf is unknown *)
 Theorem malformed_rejected P t pw :
+  cost_capped P t = true ->
   match decode_content P t with
   | None => True
   | Some c => (core_bad c || iv_bad c || dklen_bad c || cost_bad c || prf_bad c || negb (mac_valid P c pw)) = true
   end ->
   exists e, read_wallet_tree P t pw = Err e.
 Proof.
-  intros H. destruct (read_wallet_tree P t pw) as [w|e|] eqn:E.
+  intros Hc H. destruct (read_wallet_tree P t pw) as [w|e|] eqn:E.
   - exfalso. apply accept_content in E as (cf & Hd & Hk). rewrite Hd in H.
     apply content_key_some in Hk as (H1 & H2 & H3 & H4 & H5 & H6).
     rewrite H1, H2, H3, H4, H5, H6 in H. discriminate.
   - eauto.
-  - exfalso. revert E. apply read_wallet_tree_total.
+  - exfalso. revert E. apply read_wallet_tree_total. exact Hc.
 Qed.
 
 (* the form of the property text: the MAC is valid, one of the listed malformations is present *)
 Corollary malformed_rejected_mac_valid P t pw c :
+  cost_capped P t = true ->
   decode_content P t = Some c -> mac_valid P c pw = true ->
   (iv_bad c = true \/ dklen_bad c = true \/ cost_bad c = true \/ prf_bad c = true \/ core_bad c = true) ->
   exists e, read_wallet_tree P t pw = Err e.
 Proof.
-  intros Hd _ H. apply malformed_rejected. rewrite Hd.
+  intros Hc Hd _ H. apply malformed_rejected; [exact Hc|]. rewrite Hd.
   destruct H as [H|[H|[H|[H|H]]]]; rewrite H; repeat rewrite orb_true_r; reflexivity.
 Qed.
 
+(* a document that does not decode is capped by definition: no guard *)
 Corollary structure_rejected P t pw :
   decode_content P t = None -> exists e, read_wallet_tree P t pw = Err e.
-Proof. intros H. apply malformed_rejected. rewrite H. exact I. Qed.
+Proof.
+  intros H. apply malformed_rejected; [unfold cost_capped; rewrite H; reflexivity|]. rewrite H. exact I.
+Qed.
+
+(* ---------- where exactly the read path can panic ---------- *)
+(* A panic is reached only after every test that precedes the KDF call has passed: the document decodes,
+   version 3, an id, kdf scrypt, dklen 32, r, p, N inside the library's parameter limits -- and the work
+   area is beyond the allocation cap.  (The MAC and the IV are looked at after the KDF call.) *)
+Theorem read_panic_content P t pw :
+  read_wallet_tree P t pw = Panic ->
+  exists cf cc sp, decode_content P t = Some (cf, cc, KScrypt sp) /\
+    core_bad (cf, cc, KScrypt sp) = false /\ dklen_bad (cf, cc, KScrypt sp) = false /\
+    cost_bad (cf, cc, KScrypt sp) = false /\ scrypt_alloc_ok (sp_n sp) (sp_r sp) = false.
+Proof.
+  unfold read_wallet_tree, decode_content, decode_common.
+  destruct (unmarshal_wallet P step_crypto_only zero_cc t) as [[cf cc0]|e|] eqn:E; simpl; try (intros; discriminate).
+  2:{ exfalso. revert E. apply unmarshal_wallet_np. apply step_crypto_only_np. }
+  pose proof (unmarshal_metadata_np P t) as Hm.
+  destruct (unmarshal_metadata P t) as [md|e|]; simpl; try (intros; discriminate); [|contradiction].
+  destruct (cf_id cf) eqn:Eid; [|intros; discriminate].
+  assert (Ht : t <> JNull).
+  { intros ->. apply null_has_no_id in E. congruence. }
+  destruct (cf_version cf =? version3)%Z eqn:Ev; simpl; [|intros; discriminate].
+  destruct (bytes_eqb (cc_kdf cc0) kdfTypeScrypt).
+  - unfold readScryptWalletFile, decode_scrypt. intros H.
+    assert (H' : (do (cf, ck) <- unmarshal_wallet P (step_crypto_with step_scrypt_params) (zero_cc, zero_sp) t;
+                  do key <- scrypt_decrypt P (fst ck) (snd ck) pw;
+                  Ok {| w_core := cf; w_metadata := match md with Some m => m | None => [] end;
+                        w_crypto := fst ck; w_kdfparams := KScrypt (snd ck); w_private := key |}) = Panic)
+      by (destruct t; try exact H; contradiction).
+    clear H.
+    destruct (unmarshal_wallet P (step_crypto_with step_scrypt_params) (zero_cc, zero_sp) t) as [[cf2 [cc sp]]|e|] eqn:E2;
+      cbn [bind fst snd] in H'; [|discriminate|].
+    2:{ exfalso. revert E2. apply unmarshal_wallet_np. intros. apply step_crypto_with_np. apply step_scrypt_params_np. }
+    destruct (scrypt_decrypt P cc sp pw) as [key|e|] eqn:Ed; cbn [bind] in H'; try discriminate.
+    apply scrypt_decrypt_panic_iff in Ed as (D & Pre & A).
+    exists cf, cc, sp. split; [reflexivity|].
+    unfold core_bad, dklen_bad, cost_bad, dklen_of, cost_params_ok. unfold version3 in Ev.
+    rewrite Ev, Eid, D, Pre, A. repeat split; reflexivity.
+  - destruct (bytes_eqb (cc_kdf cc0) kdfTypePbkdf2); [|intros; discriminate].
+    intros H. exfalso. revert H. apply readPbkdf2_np. exact Ht.
+Qed.
+
+(* hence the malformations that the code tests before the KDF call need no cap: a wrong version / missing
+   id, dklen <> 32, cost parameters outside the KDF's domain, another prf, a document that does not
+   decode are errors whatever n and r say *)
+Theorem malformed_rejected_early P t pw :
+  match decode_content P t with
+  | None => True
+  | Some c => (core_bad c || dklen_bad c || cost_bad c || prf_bad c) = true
+  end ->
+  exists e, read_wallet_tree P t pw = Err e.
+Proof.
+  intros H. destruct (read_wallet_tree P t pw) as [w|e|] eqn:E.
+  - exfalso. apply accept_content in E as (cf & Hd & Hk). rewrite Hd in H.
+    apply content_key_some in Hk as (H1 & H2 & H3 & H4 & H5 & H6).
+    rewrite H1, H3, H4, H5 in H. discriminate.
+  - eauto.
+  - exfalso. apply read_panic_content in E as (cf & cc & sp & Hd & H1 & H3 & H4 & _). rewrite Hd in H.
+    rewrite H1, H3, H4 in H. discriminate.
+Qed.
+
+(* an accepted file is within the cap *)
+Lemma scrypt_decrypt_ok_capped P c kp pw key :
+  scrypt_decrypt P c kp pw = Ok key -> scrypt_alloc_ok (sp_n kp) (sp_r kp) = true.
+Proof.
+  unfold scrypt_decrypt, call_scrypt.
+  destruct (sp_dklen kp =? derivedKeyLen)%Z; simpl; [|intros; discriminate].
+  destruct ((sp_r kp <=? 0)%Z || (sp_p kp <=? 0)%Z); [intros; discriminate|].
+  destruct (scrypt_dom (sp_r kp) (sp_p kp) (sp_dklen kp)); simpl; [|intros; discriminate].
+  destruct (scrypt_params_ok (sp_n kp) (sp_r kp) (sp_p kp)); simpl; [|intros; discriminate].
+  destruct (scrypt_alloc_ok (sp_n kp) (sp_r kp)); simpl; [reflexivity|intros; discriminate].
+Qed.
+
+Theorem accept_capped P t pw w :
+  read_wallet_tree P t pw = Ok w -> kdf_cost_capped (w_kdfparams w) = true.
+Proof.
+  unfold read_wallet_tree.
+  destruct (unmarshal_wallet P step_crypto_only zero_cc t) as [[cf cc0]|e|]; simpl; try (intros; discriminate).
+  destruct (unmarshal_metadata P t) as [md|e|]; simpl; try (intros; discriminate).
+  destruct (cf_id cf) eqn:Eid; [|intros; discriminate].
+  destruct (cf_version cf =? version3)%Z eqn:Ev; simpl; [|intros; discriminate].
+  destruct (bytes_eqb (cc_kdf cc0) kdfTypeScrypt).
+  - unfold readScryptWalletFile. intros H.
+    assert (H' : (do (cf, ck) <- unmarshal_wallet P (step_crypto_with step_scrypt_params) (zero_cc, zero_sp) t;
+                  do key <- scrypt_decrypt P (fst ck) (snd ck) pw;
+                  Ok {| w_core := cf; w_metadata := match md with Some m => m | None => [] end;
+                        w_crypto := fst ck; w_kdfparams := KScrypt (snd ck); w_private := key |}) = Ok w)
+      by (destruct t; try exact H; discriminate).
+    clear H. apply bind_ok_inv in H' as ([cf' [cc sp]] & Hu & H').
+    apply bind_ok_inv in H' as (key & Hd & H'). injection H' as <-. cbn [w_kdfparams kdf_cost_capped snd fst] in *.
+    exact (scrypt_decrypt_ok_capped P _ _ _ _ Hd).
+  - destruct (bytes_eqb (cc_kdf cc0) kdfTypePbkdf2); [|intros; discriminate].
+    unfold readPbkdf2WalletFile. intros H.
+    assert (H' : (do (cf, ck) <- unmarshal_wallet P (step_crypto_with step_pbkdf2_params) (zero_cc, zero_pp) t;
+                  do key <- pbkdf2_decrypt P (fst ck) (snd ck) pw;
+                  Ok {| w_core := cf; w_metadata := match md with Some m => m | None => [] end;
+                        w_crypto := fst ck; w_kdfparams := KPbkdf2 (snd ck); w_private := key |}) = Ok w)
+      by (destruct t; try exact H; discriminate).
+    clear H. apply bind_ok_inv in H' as ([cf' [cc pp]] & Hu & H').
+    apply bind_ok_inv in H' as (key & Hd & H'). injection H' as <-. reflexivity.
+Qed.
+
+(* hence an accepted document is within the cap *)
+Corollary accept_cost_capped P t pw w : read_wallet_tree P t pw = Ok w -> cost_capped P t = true.
+Proof.
+  intros H. pose proof (accept_capped P t pw w H) as Hc.
+  apply accept_content in H as (cf & Hd & _). unfold cost_capped. rewrite Hd. exact Hc.
+Qed.
